@@ -40,6 +40,9 @@ Inductive op :=
 | RClose                       (* peer: MSG_CHANNEL_CLOSE *)
 | AppAdjust (n : N).           (* receiving application: conn.adjustWindow(channel, n) *)
 
+(** what a channel subclass's startWriting() hook does synchronously (a push producer resuming inside the hook) *)
+Inductive hop := HWrite (d : bytes) | HWriteExt (t : N) (d : bytes).
+
 Record st := mk {
   buf : bytes; ext : list (N * bytes); rwl : N; closing : bool;
   lclosed : bool; rclosed : bool; live : bool; writing : bool; lwl : N; log : list ev }.
@@ -82,7 +85,7 @@ Fixpoint ext_add (e : list (N * bytes)) (t : N) (d : bytes) : list (N * bytes) :
   end.
 
 Section Machine.
-  Variables (hold : bool) (rmp lws lmp : N).
+  Variables (hold : bool) (hook : list hop) (rmp lws lmp : N).
 
   (** SSHConnection.channelClosed / sendClose / sendData / sendExtendedData / adjustWindow *)
   Definition channel_closed (s : st) : st :=
@@ -133,10 +136,14 @@ Section Machine.
   Definition write_ext_all (s : st) (es : list (N * bytes)) : st :=
     fold_left (fun s e => write_ext s (fst e) (snd e)) es s.
 
+  (** the application's startWriting(): the writes of [hook], in order, made from INSIDE the hook *)
+  Definition run_hook (s : st) : st :=
+    fold_left (fun s h => match h with HWrite d => write s d | HWriteExt t d => write_ext s t d end) hook s.
+
   (** SSHChannel.addWindowBytes *)
   Definition add_window (s : st) (n : N) : st :=
     let s1 := set_rwl (rwl s + n) s in
-    let s2 := if negb (writing s1) && negb (closing s1) then emit CbStart (set_writing true s1) else s1 in
+    let s2 := if negb (writing s1) && negb (closing s1) then run_hook (emit CbStart (set_writing true s1)) else s1 in
     let s3 := match buf s2 with [] => s2 | b => write (set_buf [] s2) b end in
     match ext s3 with
     | [] => s3
@@ -212,6 +219,27 @@ Definition grant (o : op) : N := match o with RAdjust n => n | _ => 0 end.
 Definition written (ops : list op) : bytes := flat_map wdata ops.
 Definition xwritten (ops : list op) : list (N * N) := flat_map xdata ops.
 Fixpoint granted (ops : list op) : N := match ops with [] => 0 | o :: r => grant o + granted r end.
+
+(** data handed to write() / writeExtended() from inside startWriting(): the hook runs in a WINDOW_ADJUST step
+    exactly when the connection still knows the channel, the channel is not writing and no close is pending *)
+Definition fires (s : st) (o : op) : bool :=
+  match o with RAdjust _ => live s && negb (writing s) && negb (closing s) | _ => false end.
+Definition hook_w (hook : list hop) : bytes := flat_map (fun h => match h with HWrite d => d | _ => [] end) hook.
+Definition hook_x (hook : list hop) : list (N * N) :=
+  flat_map (fun h => match h with HWriteExt t d => map (pair t) d | _ => [] end) hook.
+Definition wdata_at (hook : list hop) (s : st) (o : op) : bytes := wdata o ++ (if fires s o then hook_w hook else []).
+Definition xdata_at (hook : list hop) (s : st) (o : op) : list (N * N) :=
+  xdata o ++ (if fires s o then hook_x hook else []).
+
+Section Written.
+  Variables (hold : bool) (hook : list hop) (rmp lws lmp : N).
+  (** everything handed to write() (resp. writeExtended()) along a history, in call order, including the calls made
+      re-entrantly from startWriting() *)
+  Fixpoint hwritten (s : st) (ops : list op) : bytes :=
+    match ops with [] => [] | o :: r => wdata_at hook s o ++ hwritten (step hold hook rmp lws lmp s o) r end.
+  Fixpoint hxwritten (s : st) (ops : list op) : list (N * N) :=
+    match ops with [] => [] | o :: r => xdata_at hook s o ++ hxwritten (step hold hook rmp lws lmp s o) r end.
+End Written.
 
 (** receive side *)
 Definition recvd_ev (e : ev) : N := match e with CbData d | CbExt _ d => len d | _ => 0 end.
